@@ -164,6 +164,20 @@ Theorem C03_linearization_respects_real_time : forall B R d reqs sch1 sch2 i j r
   exists l1 l2, lin_order s0 (csched B R s0 (sch1 ++ sch2)) [] = l1 ++ l2 /\ In i l1 /\ ~ In j l1.
 Proof. exact lin_fine_real_time. Qed.
 
+(* no hypothesis on the schedule at all when every AddSnapshot request addresses a client that
+   already has a version in the initial store (a client that has a version keeps having one, so
+   the creation window of F3 can never contain such a request): linearizable under EVERY
+   fine-grained schedule, both backends *)
+Theorem C03_linearizable_existing_clients : forall k cfg allow U0 a0 d0 reqs sch,
+  cfg_ok cfg -> Inv U0 a0 -> bk_rel k a0 d0 -> fresh_distinct U0 reqs ->
+  (forall er c, In er reqs -> as_client (snd er) = Some c ->
+     exists x, a_cl a0 c = Some x /\ a_latest x <> nil_id) ->
+  let s0 := init_sys (bk_backend k) hresp d0 (handlers cfg allow reqs) in
+  owner (frun (bk_backend k) hresp s0 sch) = None ->
+  linearized k cfg allow reqs d0 (frun (bk_backend k) hresp s0 sch)
+             (lin_order s0 (csched (bk_backend k) hresp s0 sch) []).
+Proof. exact lin_fine_existing. Qed.
+
 (* request sets without any AddSnapshot are window-free under every schedule *)
 Theorem C03_wfree_without_add_snapshot : forall B reqs sch,
   (forall er, In er reqs -> as_client (snd er) = None) -> forall c, wfree B reqs c sch.
